@@ -466,6 +466,44 @@ class Fn:
     def site_of_def(self, df):
         return Site(self, df["b"], df["i"])
 
+    def mut_writes(self):
+        """local -> [call terminator]: calls that receive (as their receiver) a `&mut` reference rooted in that local, directly or
+        through a chain of methods returning `&mut` (entry(..).or_default().push(v)).  Used to follow values INTO containers."""
+        if getattr(self, "_mutw", None) is None:
+            defs = self.defs()
+
+            def roots(l, depth=0, seen=None):
+                seen = seen if seen is not None else set()
+                if l is None or l in seen or depth > 12:
+                    return set()
+                seen.add(l)
+                out = set()
+                for d in defs.get(l, ()):
+                    if d["k"] == "assign":
+                        rv = d["rv"]
+                        if rv["k"] == "ref" and rv.get("mut"):
+                            pl = rv["place"]
+                            if pl["p"] and pl["p"][0] == "deref":
+                                out |= roots(pl["l"], depth + 1, seen)
+                            else:
+                                out.add(pl["l"])
+                        elif rv["k"] in ("use", "cast"):
+                            out |= roots(op_local(rv["a"]), depth + 1, seen)
+                    elif d["k"] == "call" and d["t"]["args"] and "&mut" in self.local_ty(l):
+                        out |= roots(op_local(d["t"]["args"][0]), depth + 1, seen)
+                return out
+            m = defaultdict(list)
+            for b, t in self.calls():
+                if len(t["args"]) < 2:
+                    continue
+                r = op_local(t["args"][0])
+                if r is None or "&mut" not in self.local_ty(r):
+                    continue
+                for root in roots(r):
+                    m[root].append((b, t))
+            self._mutw = m
+        return self._mutw
+
 
 def callee_of(t):
     return t.get("resolved") or t["callee"]
@@ -491,8 +529,9 @@ class Slice:
     """Backward value slice inside one body (flow-insensitive over definitions of each local)."""
 
     def __init__(self, fn, transparent=is_transparent, through_binops=True, through_all_calls=False,
-                 through_aggregates=True, opaque=None):
+                 through_aggregates=True, opaque=None, into_containers=False):
         self.fn = fn
+        self.into_containers = into_containers   # also treat `c.push(v)` / `c.entry(k).or_default().push(v)` as definitions of c
         self.opaque = opaque  # predicate on callee: never look through these calls
         self.transparent = transparent
         self.through_binops = through_binops
@@ -549,6 +588,11 @@ class Slice:
             n += 1
             if 1 <= l <= self.fn.arg_count:
                 out.append(("arg", l))
+            if self.into_containers:
+                for (wb, wt) in self.fn.mut_writes().get(l, ()):
+                    out.append(("call", wb, wt))
+                    for a in wt["args"][1:]:
+                        push_op(a)
             for df in defs.get(l, ()):
                 if df["partial"] and read_fields:
                     # field-sensitive: a store to `x.a` is irrelevant for a read of `x.b`
